@@ -464,6 +464,32 @@ class Function:
                 d = t.x["def"]
                 if d not in tgt and self.edge_dominates(b, d, bb):
                     out.append((t.ops[0], ("default", tuple(v for v, _ in t.x["cases"])), t))
+        # short-circuit conditions: clang -O0 turns  a && b  into  phi i1 [false, A], [b, B]  (and  a || b  into
+        # phi i1 [true, A], [b, B]).  If the phi is known true (false for ||), control came through B: b holds (fails) and
+        # everything that guards B holds as well.
+        k = 0
+        seen_phi = set()
+        while k < len(out) and k < 64:
+            c, o, t = out[k]
+            k += 1
+            if not (o in (True, False) and c.is_inst and c.op == "phi" and c.ty == "i1") or id(c) in seen_phi:
+                continue
+            seen_phi.add(id(c))
+            shortcut = not o            # the constant the other incoming values must have
+            rest = [(v, p) for v, p in zip(c.ops, c.x["inc"]) if not (v.is_const and v.is_int and bool(v.sval) == shortcut)]
+            if len(rest) != 1:
+                continue
+            v, p = rest[0]
+            out.append((v, o, t))
+            for g in self.guards_at(p):
+                if g not in out:
+                    out.append(g)
+            tt = p.term
+            if tt.op == "br" and len(tt.x["succ"]) == 2 and tt.x["succ"][0] is not tt.x["succ"][1]:
+                if tt.x["succ"][0] is c.bb:
+                    out.append((tt.ops[0], True, tt))
+                elif tt.x["succ"][1] is c.bb:
+                    out.append((tt.ops[0], False, tt))
         return out
 
     # ---- loops
